@@ -366,3 +366,53 @@ func specDeflateStored(data []byte, blk int, final bool) []byte {
 	out = append(out, 0x00)
 	return out
 }
+
+// ---- non-forking (term-level) variants used inside symbolic harnesses ----
+
+func specIn(b byte, lo, hi byte) bool { return vfAnd(b >= lo, b <= hi) }
+
+// specUTF8ValidT is specUTF8Valid written as one boolean expression (a
+// right-to-left dynamic programme over the positions), so that evaluating it
+// on symbolic bytes does not fork.
+func specUTF8ValidT(b []byte) bool {
+	n := len(b)
+	v := make([]bool, n+5)
+	v[n] = true
+	for i := n - 1; i >= 0; i-- {
+		c := b[i]
+		ok := vfAnd(c <= 0x7f, v[i+1])
+		if i+1 < n {
+			ok = vfOr(ok, vfAnd(vfAnd(specIn(c, 0xc2, 0xdf), specIn(b[i+1], 0x80, 0xbf)), v[i+2]))
+		}
+		if i+2 < n {
+			t2 := specIn(b[i+2], 0x80, 0xbf)
+			lead := vfAnd(c == 0xe0, specIn(b[i+1], 0xa0, 0xbf))
+			lead = vfOr(lead, vfAnd(vfOr(specIn(c, 0xe1, 0xec), specIn(c, 0xee, 0xef)), specIn(b[i+1], 0x80, 0xbf)))
+			lead = vfOr(lead, vfAnd(c == 0xed, specIn(b[i+1], 0x80, 0x9f)))
+			ok = vfOr(ok, vfAnd(vfAnd(lead, t2), v[i+3]))
+		}
+		if i+3 < n {
+			t23 := vfAnd(specIn(b[i+2], 0x80, 0xbf), specIn(b[i+3], 0x80, 0xbf))
+			lead := vfAnd(c == 0xf0, specIn(b[i+1], 0x90, 0xbf))
+			lead = vfOr(lead, vfAnd(specIn(c, 0xf1, 0xf3), specIn(b[i+1], 0x80, 0xbf)))
+			lead = vfOr(lead, vfAnd(c == 0xf4, specIn(b[i+1], 0x80, 0x8f)))
+			ok = vfOr(ok, vfAnd(vfAnd(lead, t23), v[i+4]))
+		}
+		v[i] = ok
+	}
+	return v[0]
+}
+
+// specCloseMustAccept / specCloseMustReject: the property's close-code classes.
+func specCloseMustAccept(code int) bool {
+	a := vfAnd(code >= 1000, code <= 1003)
+	a = vfOr(a, vfAnd(code >= 1007, code <= 1011))
+	a = vfOr(a, vfAnd(code >= 3000, code <= 4999))
+	return a
+}
+
+func specCloseDontcare(code int) bool { return vfAnd(code >= 1012, code <= 1014) }
+
+func specCloseMustReject(code int) bool {
+	return vfAnd(!specCloseMustAccept(code), !specCloseDontcare(code))
+}
